@@ -265,6 +265,14 @@ pub(crate) fn apply_rules_on_link(
                     }
                 }
                 ArtifactRule::Disallow(_) => {
+                    if let Err(e) = VirtualTargetPath::from("")
+                        .matches(rule.pattern().value())
+                    {
+                        return Err(Error::ArtifactRuleError(format!(
+                            "artifact verification failed for {:?} in DISALLOW, because the pattern of rule {:?} in {} cannot be interpreted: {}",
+                            verification_data.src_type, rule, item_name, e,
+                        )));
+                    }
                     if !filtered.is_empty() {
                         return Err(Error::ArtifactRuleError(format!(
                             r#"artifact verification failed for {:?} in DISALLOW, because {:?} is disallowed by rule {:?} in {}"#,
